@@ -1,6 +1,6 @@
 (* C09 — the debugger is transparent to the program. *)
 From Lace Require Import Word Machine Isa Vm Asm Dbg DbgProofs.
-From Lace Require DebugText DebugTextProofs.
+From Lace Require DebugText DebugTextProofs DbgStream DbgStreamProofs.
 Open Scope N_scope.
 
 (** For every program state, every script made only of execution-control and inspection commands
@@ -47,3 +47,13 @@ Theorem C09_text_transparent : forall env fuel arg stdin d st t e c,
                      (fst (vm_run (e_feat env) k st [])).
 Proof. exact DebugTextProofs.text_transparent. Qed.
 Print Assumptions C09_text_transparent.
+
+(** The real process has ONE console stream: when the `--command` argument is used up the debugger
+    reads its commands from the stream GETC / IN read from (model DbgStream.v, tied to the code by
+    sessions whose script and program input interleave on that stream).  With no console input
+    the one-stream model and the two-channel model of the theorems above are the same function:
+    every field of the session agrees. *)
+Theorem C09_one_stream : forall env fuel script d st t e c, s_inp st = nil ->
+  DbgStream.ssession env fuel script d st t e c = Some (session env fuel script d st t e c).
+Proof. exact DbgStreamProofs.ssession_no_input. Qed.
+Print Assumptions C09_one_stream.
